@@ -521,6 +521,16 @@ def first_bad_entry(name, data):
                 if not ((m and int(m.group(1), 16) * 100 + int(m.group(2), 16) * 10 + int(m.group(3), 16) == v) or s == prev):
                     return ("digest:%d" % v, "SYSTEM_VERSION_DIGEST[%d] = %r" % (v, s))
                 prev = s
+        if name == "aliases_agree":
+            dg = dict(t["digest"])
+            for v, s in t["fw"]:
+                m = re.match(r"(\d+)\.(\d)\.(\d)-.+", s)
+                fw_spells = bool(m and int(m.group(1)) * 100 + int(m.group(2)) * 10 + int(m.group(3)) == v)
+                d = dg.get(v, "")
+                m = re.match(r"CusHY#00([0-9a-f]{2})([0-9a-f]{2})([0-9a-f]{2})#", d)
+                dg_spells = bool(m and int(m.group(1), 16) * 100 + int(m.group(2), 16) * 10 + int(m.group(3), 16) == v)
+                if fw_spells != dg_spells:
+                    return ("digest:%d" % v, "version %d: FIRMWARE_VERSIONS says %r but SYSTEM_VERSION_DIGEST is %r (a device_token request at %d sends another version's digest)" % (v, s, d, v))
         if name in ("columns_monotone", "api_era_constant", "api_steps_documented"):
             steps = {"keygen": None, "dauthApi": [1300], "aauthApi": [1500, 1900]}
             for n in ("keygen", "dauthApi", "aauthApi"):
